@@ -339,6 +339,18 @@ struct Os2Info {
 }
 
 impl Plan {
+    /// Verification hook: the old -> new glyph id renumbering, sorted by old id.
+    #[cfg(googlefonts_fontations_verif)]
+    pub fn verif_glyph_map(&self) -> Vec<(u32, u32)> {
+        let mut map: Vec<(u32, u32)> = self
+            .glyph_map
+            .iter()
+            .map(|(old, new)| (old.to_u32(), new.to_u32()))
+            .collect();
+        map.sort_unstable();
+        map
+    }
+
     #[allow(clippy::too_many_arguments)]
     pub fn new(
         input_gids: &IntSet<GlyphId>,
